@@ -29,14 +29,22 @@ RULE = ("classes built on the eligibility boundary of trusted deserialization: e
         "classes not fast), create_serializer with serialize_none x compact in 2x2, x.serialize() vs Serializer(twin); "
         "for flag-free cases the serializer also comes to exist implicitly at first instantiation, or implicitly for a "
         "SUBCLASS (fields split over a parent and a child class) after the parent was instantiated / got its own "
-        "serializer; JSON arrays of Set fields repeat elements; every case builds fresh classes; distinct by case hash")
+        "serializer; mode firstuse: fresh FastSerializable class trees WITHOUT create_serializer (25% with simple mappers) whose FIRST "
+        "instance is made by a shortcut path (trusted deserialization incl. the nested classes it builds, from_trusted_data(None, **kw), "
+        "from_trusted_data(mapping), trust_supplied_values + constructor; 15% of the optional-only classes from no values at all): "
+        "x.serialize() of the instance and of every reachable nested instance vs the model (fastSerializeFirst) and vs the same path on an "
+        "identically declared tree whose classes were instantiated by the validating constructor first; JSON arrays of Set fields repeat "
+        "elements; every case builds fresh classes; distinct by case hash")
 ASSUMPTIONS = [
     "fail-fast mode, no Versioned classes, no Constant fields, no class inheritance, no uniqueness features",
     "rename mappers are injective on the class's fields (key collisions are C07's subject); one mapper per class, no lists of mappers "
     "except as the 'unsupported' kind",
     "SerializableField types other than Enum (DateField, DateTime, TimeField, DecimalNumber) and Enum serialization_by_value are not in the model",
-    "the regular path with mappers is not modelled here (C07 models it): for class trees with mappers the regular result is "
-    "used by the oracle but not corresponded; the trusted and fast paths are modelled with the classes' own simple mappers",
+    "the regular path with mappers is modelled as Spec/TrustedSafe.deserializeMapped (every class-level object read through its class's "
+    "own simple mapper, then the mapper-free regular path) and corresponded where no named deviation of the real regular path applies "
+    "(enclosing TO_CAMELCASE/TO_LOWERCASE reaching nested classes, chained parent mappers, field-name fallback, a renamed field's original "
+    "key kept as an undeclared attribute, Map/Tuple of classes); C07 models the aggregate itself (composed with in trusted_key_is_regular_key); "
+    "the trusted and fast paths are modelled with the classes' own simple mappers",
     "attribute order of __dict__ / key order of documents is not modelled (compared order-insensitively, like Python ==)",
     "serialize_none=True adds an explicit null for every unset field by definition: the fast document is compared with the "
     "regular one modulo top-level null entries",
@@ -50,7 +58,6 @@ TRUSTED_EXTRA = [
 PRIORITY = [
     # trusted deserialization
     "unnormalised:optional-immutable-set", "unnormalised:anyof-enum",
-    "none-attribute-hash:set-of-structures",
     "dropped:undeclared-keys", "unnormalised:boolean-string", "defaults-not-applied",
     "unnormalised:enum-name", "unnormalised:inline-dict", "unnormalised:float-int",
     "mapper:base-chain", "mapper:cascade", "mapper:fallback",
@@ -129,14 +136,16 @@ def judge_trusted(case, impl, model):
                     and not model.get("baseChain") and "regularMapped" in model
                     and not _uses_unmapped_names(cls, case["doc"], case.get("mapperSpec") or {})
                     and _extras_quiet(cls, case["doc"], case.get("mapperSpec") or {}, impl.get("opts_actual") or {}))
-    if mapped_scope and not _has_set_of_struct(cls):
+    if mapped_scope:
         m_reg = _loose_err(SD.res_diff("regular deserialize (with mappers)", model["regularMapped"], reg,
                                        errs=("TypeError", "ValueError", "InvalidStructureErr")))
         if m_reg:
             msgs.append(m_reg)
     m_tru = None
     eligible = model.get("verdict") in ("flat", "nested")
-    set_of_struct = _has_set_of_struct(cls)   # CPython dedups by hash (= str(instance)), the model by ==  (C11)
+    # (before /repo c4803f1 CPython deduplicated Set[Structure] elements by a hash of str(instance) while the model
+    #  deduplicates by ==; since then equal structures hash alike and sets of structures are corresponded like the rest)
+    set_of_struct = False
     if set_of_struct:
         m_reg = None
         msgs[:] = [m for m in msgs if not m.startswith("regular deserialize")]
@@ -202,6 +211,8 @@ def judge_trusted(case, impl, model):
                     tag_list.append("mapper:cascade")
                 if not mapper_free and _uses_unmapped_names(cls, case["doc"], case.get("mapperSpec") or {}):
                     tag_list.append("mapper:fallback")
+                if not mapper_free and not _extras_quiet(cls, case["doc"], case.get("mapperSpec") or {}, impl.get("opts_actual") or {}):
+                    tag_list.append("dropped:undeclared-keys")     # the regular path keeps a renamed field's ORIGINAL key too
                 in_region = bool((mapper_free and model.get("tsafe") and model.get("plain"))
                                  or (mapped_scope and model.get("tsafe") and model.get("plainMapped")))
                 explained = m_tru is None and (m_reg is None)
@@ -376,6 +387,14 @@ def judge_fast(case, impl, model):
         d = S.res_same(cls, model["regular"], reg, doc=True)
         if d and "exception class differs" not in d:
             msgs.append("regular serialize: " + d)
+    cascade = "fast:mapper-cascade" in (model.get("fastDefects") or [])
+    fmap_region = bool(not mapper_free and model.get("fmapRegion") and not cascade)
+    if (fmap_region and in_scope and reg is not None and "regularMapped" in model and model.get("fsafe")
+            and "fast:extras-dropped" not in (model.get("fastDefects") or [])):
+        # the regular serializer with a mapper on the class itself (none below): the mapper-free document, keys renamed
+        d = S.res_same(cls, model["regularMapped"], reg, doc=True, mapped=True)
+        if d and "exception class differs" not in d:
+            msgs.append("regular serialize (with mapper): " + d)
     # (a nested class whose own serializer cannot be created cannot be instantiated at all: `fast_inst_err`;
     #  such class trees are outside the statement's domain and only the verdict is compared)
     if impl.get("inst_unchanged") is False:
@@ -395,8 +414,8 @@ def judge_fast(case, impl, model):
                 what = "serializer-wrapper-differs"
         if what:
             tag_list = [t for t in model.get("fastDefects", []) if t != "fast:serialize-none"]
-            in_region = bool(mapper_free and not case.get("nonFast") and model.get("fsafe") and model.get("fwf")
-                             and "fast:compact-conditions" not in tag_list)
+            in_region = bool((mapper_free or (fmap_region and not case["compact"])) and not case.get("nonFast")
+                             and model.get("fsafe") and model.get("fwf") and "fast:compact-conditions" not in tag_list)
             explained = m_fast is None
             key = attribute(what, in_region, explained, tag_list)
             fails.append((key, f"create_serializer(compact={case['compact']}, serialize_none={case['serializeNone']}) succeeded "
